@@ -82,7 +82,7 @@ def case_features(case):
         f["readers"] = case.split("(prog", 1)[0].count("(s ")
         ops = case.split("(ops", 1)[-1]
         for key, pat in (("op_next", "(next "), ("op_snap", "(snap "), ("op_restore", "(restore "), ("op_hostwrite", "(hset "), ("op_complete", "(complete "),
-                         ("op_newrunner", "(new "), ("op_mutsnap", "(mutsnap "), ("op_restorebad", "(restorebad ")):
+                         ("op_newrunner", "(new "), ("op_mutsnap", "(mutsnap "), ("op_restorebad", "(restorebad "), ("op_hostwrite_same_length", "(hrev "), ("op_late_command", "(addcmd ")):
             f[key] = ops.count(pat)
         # nesting depth of statement lists
         d = mx = 0
@@ -727,7 +727,7 @@ PROPERTIES = {
         "rule": "containers: random and phase-structured operation sequences on the real Queue/Stack through the hook; queue-exh enumerates all words over {enq, deq, peek} up to length 11 plus 16k phase sequences forcing three growths from wrapped buffers (every (cap, first, next) for cap 8, 16, 32 is visited); tokens: INDENT/DEDENT/EOF projection of the real lexer on generated scripts in random (also ragged, noisy, mixed tab/space) layouts and on arbitrary bytes (balance predicate); nexttoken: the complete delivered token stream (ordinary tokens in place, synthetic tokens with their widths) of the real lexer against the NextToken plumbing model pulled over the pending queue and the indent stack",
         "leanchecker": ["Ysgo.Props.C20", "Ysgo.Props.C20NextToken"],
     },
-    "C08": runprop("layout", ("res", "log", "v"), ("text", "dis", "tags"), 1500, 60000, nontrivial=run_nontrivial(2, ()),
+    "C08": runprop("layout", ("res", "log", "v"), ("text", "dis", "tags", "attrs"), 1500, 60000, nontrivial=run_nontrivial(2, ()),
                    extra_streams=[{"stream": "tokens", "profile": "layout", "quick": 3000, "thorough": 200000, "nontrivial": lambda obs, case: "I" in obs[0]},
                                   {"stream": "exprsyn", "profile": "valid", "quick": 4000, "thorough": 150000, "nontrivial": lambda obs, case: True}],
                    rule="run/layout (metamorphic against the layout-free model): every generated program is written in a random layout (indent unit 1-8 spaces or 1-2 tabs, if-bodies indented or not, blank / whitespace-only / comment lines of random width between any two lines, trailing comments, LF/CRLF/CR, operator spellings, minimal/full/redundant parentheses, extra spaces in commands, 1-3 readers); the parsed tree must equal the generating AST and the trace the model's; tokens/layout ties the indentation model, exprsyn/valid the expression spellings and parentheses",
